@@ -69,12 +69,17 @@ TrCommit == /\ IsEvent("commit")
                     /\ exp = got                  \* what the code says it processed is what the specification predicts
                     /\ known' = got.known /\ part' = got.part
             /\ UNCHANGED <<queue, bufCost, seen, inflight>>
-TrDone == /\ IsEvent("done") /\ Ev.ok
+Forgotten == [k \in 1..Len(Ev.forgotten) |-> ToChange(Ev.forgotten[k])]
+TrDone == /\ IsEvent("done") /\ Ev.ok /\ Len(Ev.forgotten) = 0
           /\ \E i \in 1..Len(inflight) : Done(i)
           /\ Ev.inflight = Len(inflight')
+(* a joined batch with changesets the bookkeeping did not contain when the loop looked: exactly those are forgotten *)
+TrDoneForget == /\ IsEvent("done") /\ Len(Ev.forgotten) > 0
+                /\ \E i \in 1..Len(inflight) : DoneLate(i, Forgotten)
+                /\ Ev.inflight = Len(inflight')
 TrFinal == /\ IsEvent("final") /\ UNCHANGED vars
 
-TraceNext == TrRecvSeen \/ TrRecvKnown \/ TrRecvQueued \/ TrSpawnLoop \/ TrSpawnTick \/ TrTrim \/ TrCommit \/ TrDone \/ TrFinal
+TraceNext == TrRecvSeen \/ TrRecvKnown \/ TrRecvQueued \/ TrSpawnLoop \/ TrSpawnTick \/ TrTrim \/ TrCommit \/ TrDone \/ TrDoneForget \/ TrFinal
 TraceSpec == TraceInit /\ [][TraceNext]_tvars
 
 (* the trace may branch (which batch a commit/done belongs to): accept iff some path consumes everything *)
